@@ -105,17 +105,25 @@ def check_property(prop, tier, seed):
     fallback_hits = []
     fallback_runs = []
     driver_known = []
+    # the driver that demonstrates an open known finding of this property runs on EVERY run (also in the quick tier), so that the
+    # KNOWN-FINDING line is printed only while the history still fails, and any OTHER failing line of that driver is a violation
+    finding_drivers = set(k['driver'] for k in known if k.get('status', 'open') == 'open' and k.get('driver'))
+    ran = set()
     for u in runs:
         meta = index.get(u.unit, {})
         fbs = meta.get('fallback', [])
         if not fbs:
             continue
-        if not (u.undecided or tier == 'thorough' or res_changed or (census is not None and census[2])):
-            continue
+        general = bool(u.undecided or tier == 'thorough' or res_changed or (census is not None and census[2]))
         from . import scratch
         for drv in fbs:
             if prop not in drv.get('props', [prop]):
                 continue
+            if not (general or drv['test'] in finding_drivers):
+                continue
+            if drv['test'] in ran:
+                continue      # one driver may be registered under several units of the property: run it once per check
+            ran.add(drv['test'])
             ok, info = scratch.run_replay_driver(drv)
             fallback_runs.append({'unit': u.unit, 'driver': drv['test'], 'bound': drv.get('bound', ''), 'passed': ok, 'wall_s': info.get('wall_s')})
             if ok is False:
